@@ -15,7 +15,6 @@ import json
 
 from .. import common as C
 from .. import regen
-from .c13 import fold_proof_failures
 
 LEVEL = 'proof'
 
@@ -31,6 +30,7 @@ CLASSES = {
 }
 FALSY = ['0', "''", '[]', 'None', 'False']
 REG_NAMESPACES = ['/reg', '/', None, '/a/b', '/é']
+NMIX = [1]          # random sentinel/falsy mixes per subset (thorough: 12)
 
 
 def sio_mod():
@@ -274,7 +274,8 @@ def cases_for(cname, helper, rng, counter):
             patterns = [[['s', p] for p in names]]
             for rot in range(5):
                 patterns.append([['f', (i + rot) % 5] for i, _p in enumerate(names)])
-            patterns.append([(['s', p] if rng.random() < 0.5 else ['f', rng.randrange(5)]) for p in names])
+            for _ in range(NMIX[0]):
+                patterns.append([(['s', p] if rng.random() < 0.5 else ['f', rng.randrange(5)]) for p in names])
             # how many leading arguments can go positionally: the leading run of the signature
             maxpos = 0
             for p, _d in params:
@@ -357,6 +358,7 @@ def run(ctx):
     if unfaithful:
         ctx.notes.append('rows the model does not find faithful: %r' % unfaithful)
 
+    NMIX[0] = ctx.scale(1, 12)
     loop = asyncio.new_event_loop()
     counter = [0]
     n_exec = n_nontrivial = 0
@@ -426,7 +428,13 @@ def run(ctx):
     if stats['model_none'] and not any(v['kind'] == 'proof' for v in ctx.violations):
         ctx.violation('correspondence', 'the model could not evaluate %d executions although the theorems build'
                       % stats['model_none'], {'rows': unfaithful}, no_input=True)
-    fold_proof_failures(ctx)
+    if ctx.thorough:
+        ok, out = C.leanchecker(['Sio.Props.C17'])
+        ctx.coverage['leanchecker'] = 'ok' if ok else out
+        if not ok:
+            ctx.violation('proof', 'leanchecker rejects Sio.Props.C17: ' + out[-800:], {'leanchecker': out[-800:]},
+                          no_input=True)
+    C.fold_proof_failures(ctx)
     if len(ctx.violations) > 10:
         seen, kept = set(), []
         for v in ctx.violations:
